@@ -10,13 +10,16 @@ EXTENDS Integers, Sequences, FiniteSets, TLC
 CONSTANTS Q,          \* queue capacity (128 in cmd/main.go)
           Payloads,   \* payload ids
           ValidP,     \* subset of Payloads: hash = Keccak-256(text) and the signature is recoverable
-          EmptyP      \* subset of Payloads with an empty field
+          EmptyP,     \* subset of Payloads with an empty field
+          RetryOnError \* BOOLEAN: FALSE = the code (a transport error is final); TRUE = a design that posts again
 
 VARIABLES q, accepted, fwd, answer, worker, service
 rvars == <<q, accepted, fwd, answer, worker, service>>
 
 RInit == /\ q = <<>> /\ accepted = {} /\ fwd = [p \in Payloads |-> 0] /\ answer = [kind |-> "none", p |-> 0, err |-> FALSE]
-         /\ worker = FALSE /\ service \in {"up", "down"}
+         /\ worker = FALSE /\ service \in {"up", "down", "lost"}
+\* service: up = receives and answers; down = unreachable; lost = receives the receipt, the answer never arrives
+\* (the worker sees a transport error although the receipt was delivered)
 
 \* what HandleReceipt answers for payload p when the queue holds n entries
 AnswerFor(p, n) == IF p \in EmptyP THEN "bad_request" ELSE IF n >= Q THEN "too_busy" ELSE "accepted"
@@ -34,7 +37,9 @@ StartWorker == ~worker /\ worker' = TRUE /\ UNCHANGED <<q, accepted, fwd, answer
 Work == /\ worker /\ q # <<>>
         /\ LET p == Head(q) IN
            /\ q' = Tail(q)
-           /\ fwd' = IF p \in ValidP /\ service = "up" THEN [fwd EXCEPT ![p] = @ + 1] ELSE fwd
+           /\ fwd' = IF p \in ValidP /\ service = "up" THEN [fwd EXCEPT ![p] = @ + 1]
+                     ELSE IF p \in ValidP /\ service = "lost" THEN [fwd EXCEPT ![p] = @ + (IF RetryOnError THEN 2 ELSE 1)]
+                     ELSE fwd
         /\ UNCHANGED <<accepted, answer, worker, service>>
 
 RNext == (\E p \in Payloads : Submit(p)) \/ StartWorker \/ Work
